@@ -451,4 +451,88 @@ example : sharpDispatch (SharpConsts.mk 9223372036854775807 922337203685477579 1
   decide
 example : SharpOK (SharpConsts.mk 9223372036854775807 922337203685477579 1024 2 36) = true := by decide
 
+/-! ## (3) format argument cursor -/
+
+/-- nextArg with both bounds checked never indexes outside c.args — for EVERY cursor value, also a
+    negative one or one past the end; an argument is taken only from inside and the cursor stays
+    within [0, len]. -/
+theorem nextArg_total (g : CursorGuards) (hl : g.checksLow = true) (hh : g.checksHigh = true) (len : Nat) (pos : Int) :
+    nextArg g len pos ≠ .fault ∧
+    ∀ idx pos', nextArg g len pos = .got idx pos' → idx < len ∧ (idx : Int) = pos ∧ pos' = pos + 1 ∧ 0 ≤ pos' ∧ pos' ≤ len := by
+  unfold nextArg
+  simp only [hl, hh, Bool.true_and, Bool.or_eq_true, decide_eq_true_eq]
+  by_cases hc : pos < 0 ∨ (len : Int) ≤ pos
+  · simp only [hc, ↓reduceIte]
+    exact ⟨nofun, nofun⟩
+  · simp only [hc, ↓reduceIte]
+    refine ⟨nofun, ?_⟩
+    intro idx pos' h
+    cases h
+    omega
+
+/-- `~n*`, `~n:*`, `~n@*` for EVERY n (also MinInt / MaxInt, where the Go int wraps): the directive
+    raises or leaves the cursor within [0, len]. -/
+theorem moveCursor_in_range (len : Nat) (pos : Int) (colon at_ : Bool) (n p : Int)
+    (h : moveCursor len pos colon at_ n = some p) : 0 ≤ p ∧ p ≤ len := by
+  unfold moveCursor at h
+  simp only at h
+  generalize (if colon = true then wrapInt (pos - n) else if at_ = true then n else wrapInt (pos + n)) = q at h
+  by_cases hc : q < 0 ∨ (len : Int) < q
+  · simp only [hc, ↓reduceIte] at h
+    cases h
+  · simp only [hc, ↓reduceIte, Option.some.injEq] at h
+    subst h
+    omega
+
+/-- Argument cursor totality: every sequence of argument-consuming directives and `~*` moves, for
+    every argument count and every parameter value, ends without an out-of-range access; every
+    consumed index is inside the argument list and the final cursor is within [0, len]. -/
+theorem cursor_run_total (g : CursorGuards) (hl : g.checksLow = true) (hh : g.checksHigh = true) (len : Nat) :
+    ∀ (ops : List CurOp) (pos : Int) (i : Nat) (taken : List Nat), 0 ≤ pos → pos ≤ len → (∀ x ∈ taken, x < len) →
+      (∀ k, runCursor g len pos i taken ops ≠ .fault k) ∧
+      (∀ tk p, runCursor g len pos i taken ops = .done tk p → (∀ x ∈ tk, x < len) ∧ 0 ≤ p ∧ p ≤ len) := by
+  intro ops
+  induction ops with
+  | nil =>
+    intro pos i taken h0 h1 ht
+    simp only [runCursor]
+    refine ⟨nofun, ?_⟩
+    intro tk p h
+    cases h
+    exact ⟨fun x hx => ht x (List.mem_reverse.mp hx), h0, h1⟩
+  | cons op rest ih =>
+    intro pos i taken h0 h1 ht
+    cases op with
+    | next =>
+      simp only [runCursor]
+      have hn := nextArg_total g hl hh len pos
+      cases hna : nextArg g len pos with
+      | raise => exact ⟨nofun, nofun⟩
+      | fault => exact absurd hna hn.1
+      | got idx pos' =>
+        obtain ⟨hi, -, -, hp0, hp1⟩ := hn.2 idx pos' hna
+        simp only
+        exact ih pos' (i + 1) (idx :: taken) hp0 hp1 (by
+          intro x hx
+          simp only [List.mem_cons] at hx
+          rcases hx with rfl | hx
+          · exact hi
+          · exact ht x hx)
+    | move colon at_ n =>
+      simp only [runCursor]
+      cases hm : moveCursor len pos colon at_ n with
+      | none => exact ⟨nofun, nofun⟩
+      | some p =>
+        obtain ⟨hp0, hp1⟩ := moveCursor_in_range len pos colon at_ n p hm
+        simp only
+        exact ih p (i + 1) taken hp0 hp1 ht
+
+/-- both checks matter: without the lower one a cursor that `~:*` moved before the first argument
+    is used as an index (the seeded mutant C09-5) -/
+example : nextArg ⟨false, true⟩ 3 (-1) = .fault := by decide
+example : nextArg ⟨true, true⟩ 3 (-1) = .raise := by decide
+example : runCursor ⟨true, true⟩ 3 0 0 [] [.next, .next, .move true false 2, .next, .move false true 9223372036854775807] =
+    .raise 4 := by decide
+example : runCursor ⟨true, true⟩ 3 0 0 [] [.next, .next, .move true false 2, .next] = .done [0, 1, 0] 1 := by decide
+
 end SlipVerif.Theorems.C09Stack
